@@ -213,6 +213,31 @@ func (e *c16env) faulted(name string, batch []*nom.DetailedMomentum, ex c16expec
 						if idx != i {
 							c.Failf("C16/fault-index", "%s: reported index %d, failing element is %d", what, idx, i)
 						}
+						// the same node is handed the chain again: the elements before the fault passed verification a
+						// moment ago and were rolled back; now one of THEM carries a bad signature (same hash)
+						if i > start && c.Weighted("secondDelivery", 1, 1) == 1 {
+							j := start + c.Int("secondDelivery.pos", 0, i-start-1)
+							if fm2 := sim.InjectFault(batch[j], "bad-signature", e.h.W.Keys, e.extra); fm2 != nil {
+								fb2 := append([]*nom.DetailedMomentum{}, batch...)
+								fb2[j] = fm2
+								idx2, err2, pan2 := e.deliver(n, fb2)
+								e.faults++
+								c.Class("second-delivery-to-the-same-node")
+								what2 := fmt.Sprintf("%s; then the same chain with a bad signature at position %d (which had verified and been rolled back in the first delivery)", what, j)
+								if pan2 != nil {
+									c.Failf("C16/panic/"+name+"/second-delivery", "InsertChain panicked on %s: %v", what2, pan2)
+								}
+								if err2 == nil {
+									c.Failf("C16/fault-accepted/bad-signature/second-delivery", "%s: no error; node at height %d", what2, n.Height())
+								}
+								if n.Height() != e.topX || n.Dump() != e.baseDump {
+									c.Failf("C16/fault-state/bad-signature/second-delivery", "%s: the node left its chain (height %d -> %d)", what2, e.topX, n.Height())
+								}
+								if idx2 != j {
+									c.Failf("C16/fault-index", "%s: reported index %d, failing element is %d", what2, idx2, j)
+								}
+							}
+						}
 						return
 					}
 					// the verified part of the delivered chain (the elements before the fault) is itself a delivered
